@@ -250,3 +250,13 @@ Theorem C03_thematic_configs :
   forallb thematic_config [cfg_html; cfg_html_nohtml; cfg_markdown; cfg_latex; cfg_mathjax; cfg_default] = true /\ tline 42 1 = $"****" ++ [10%Z].
 Proof. split; [exact thematic_configs|reflexivity]. Qed.
 Print Assumptions C03_thematic_configs.
+
+(* thematic breaks are leaves of the fragment too (FRule): at every nesting depth, with the line numbers, the HTML and the
+   Markdown round trip of the fragment theorems above *)
+Theorem C03_fragment_rules_instance :
+  let t := FItem (MBullet 45) 2 [FPara 97 $"b" []; FRule 42 0; FQuote [FRule 45 2; FHead 2 99 $"d"; FItem (MBullet 43) 1 [FRule 95 1; FPara 101 [] []]]; FRule 95 0] in
+  wf_b t = true /\ depth t = 3%nat /\
+  text_of (spell t) = [ $"-  ab" ++ [10%Z]; [10%Z]; $"   ***" ++ [10%Z]; [10%Z]; $"   > -----" ++ [10%Z]; $"   > " ++ [10%Z]; $"   > ## cd" ++ [10%Z]; $"   > " ++ [10%Z];
+                        $"   > + ____" ++ [10%Z]; $"   > " ++ [10%Z]; $"   >   e" ++ [10%Z]; [10%Z]; $"   ___" ++ [10%Z] ].
+Proof. vm_compute. repeat split; reflexivity. Qed.
+Print Assumptions C03_fragment_rules_instance.
